@@ -661,6 +661,10 @@ func (ed Editor) InsertTwoColumnsOpts(pos int, leftText string, rightText string
 	if leftColWidth < minLeftColWidth {
 		leftColWidth = minLeftColWidth
 	}
+	// the left column may not take the space the right column needs at minimum
+	if leftColWidth > (width-minSpaceBetween)-minRightColWidth {
+		leftColWidth = (width - minSpaceBetween) - minRightColWidth
+	}
 
 	// difference instead of /2 here in case leftColWidth had int truncation
 	// happen during its calculation.
